@@ -125,6 +125,10 @@ def check(case, ctx):
     out = call(lambda: o.q_conj(aa.copy()))
     if ctx.returned(out, route="orientation.q_conj"):
         ctx.ok("q_conj = (w, -v)", np.array_equal(np.asarray(out.value, float), rq.qconj(aa)), route="orientation.q_conj")
+    # the free functions given the library's own Quaternion objects (same values) instead of arrays
+    for r, fn, args in (("orientation.q_mult_L", lambda x: o.q_mult_L(x), [aa]), ("orientation.q_mult_R", lambda x: o.q_mult_R(x), [aa]),
+                        ("orientation.q_conj", lambda x: o.q_conj(x), [aa]), ("orientation.q_prod", lambda x, y: o.q_prod(x, y), [aa, bb])):
+        forms.invariant(ctx, r, fn, args, lists=False, objects=True, clause="a Quaternion object holding the same values gives the same result as the array")
     # N-row stacks through the free functions (N = 1 .. 5: N = 4 is a square array, N = 3 looks like vectors)
     for n_ in (1, 2, 3, 4, 5):
         S_ = np.array([aa, bb, cc, rq.qmul(aa, bb), rq.qmul(bb, cc)][:n_])
